@@ -87,12 +87,32 @@ NORM2 = z3.Function("norm2", _REAL, _REAL, _REAL)
 UF = {n: z3.Function(n, _REAL, _REAL) for n in ("exp", "log", "tanh", "sqrt", "cos", "sin", "sigmoid")}
 
 
-def norm2_axioms():
+def norm2_axioms(formulas=()):
+    """Axioms of the Euclidean norm of a 2-vector (uninterpreted, A1): non-negative,
+    zero iff the vector is zero (quantified, create no new terms); evenness
+    norm2(x,y) = norm2(-x,-y) instantiated for the ground applications present."""
     x, y = z3.Reals("nx ny")
-    return [
-        z3.ForAll([x, y], z3.And(NORM2(x, y) >= 0, NORM2(x, y) == NORM2(-x, -y)), patterns=[NORM2(x, y)]),
+    ax = [
+        z3.ForAll([x, y], NORM2(x, y) >= 0, patterns=[NORM2(x, y)]),
         z3.ForAll([x, y], (NORM2(x, y) == 0) == z3.And(x == 0, y == 0), patterns=[NORM2(x, y)]),
     ]
+    seen = set()
+    stack = list(formulas)
+    apps = []
+    while stack:
+        t = stack.pop()
+        if t.get_id() in seen:
+            continue
+        seen.add(t.get_id())
+        if z3.is_quantifier(t):
+            continue
+        if z3.is_app(t):
+            if t.decl().eq(NORM2):
+                apps.append(t)
+            stack.extend(t.children())
+    for a in apps[:200]:
+        ax.append(a == NORM2(z3.simplify(-a.arg(0)), z3.simplify(-a.arg(1))))
+    return ax
 
 
 # ----------------------------------------------------------------------------
